@@ -200,6 +200,11 @@ class Facts:
         self.path = path
         self.config = config
         self.raw = d
+        try:
+            from .extract import CONFIGS as _C
+            self.features = set(x for x in _C.get(config, "").split(",") if x)
+        except Exception:
+            self.features = set()
         self.fns = {q: Fn(self, q, m) for q, m in d["fns"].items()}
         self.consts = d["consts"]
         self.adts = d["adts"]
